@@ -11,7 +11,7 @@ from ..core import matrix, templates
 from ..core.model import AnchorMissing, Repo, class_methods, dotted, strip_cast
 from ..core.report import Run
 
-LEVEL = "proof"
+LEVEL = "other"  # a recorded known finding keeps one obligation open; the rule set itself is complete for its clauses
 
 # (receiver class, operator key, which side) -> classes the result may be built with
 ROWS: List[Tuple[str, str, Set[str]]] = []
